@@ -51,7 +51,7 @@ SEG_BYTES = [0x00, 0x20, 0x41, 0x7F, 0x80, 0x81, 0x8E, 0xA1, 0xE0, 0xFE, 0xFF]
 SEG_BYTES_X = SEG_BYTES + [0x30, 0x40, 0x8F, 0xC4, 0xF0]
 
 BOUNDS = {
-    "quick": {"seg_len": 3, "seg_alphabet": 11, "tou_entries": 3, "w_items": 3, "tj_elements": 4, "vertical_codec": False},
+    "quick": {"seg_len": 3, "seg_alphabet": 11, "tou_entries": 3, "w_items": 3, "tj_elements": 4, "vertical_codec": True},
     "thorough": {"seg_len": 4, "seg_alphabet": 16, "tou_entries": 4, "w_items": 4, "tj_elements": 5, "vertical_codec": True},
 }
 
